@@ -477,7 +477,9 @@ func (x *e1) checkHangs(phase string) {
 	// close nothing may stay inside a call, stalled or not
 	_, connClose := x.did["conn-close"]
 	_, trClose := x.did["tr-close"]
-	if stalledNow && (connClose || trClose) {
+	// cancelling the server's context closes the transport only in hard-cancel mode
+	_, serveCancel := x.did["serve-cancel"]
+	if stalledNow && (connClose || trClose || (serveCancel && !x.prog.Cfg.SoftS)) {
 		x.viol("close-hang", fmt.Sprintf("blocked-forever after close calls=[%s]", describeSet(calls)),
 			fmt.Sprintf("phase=%s (stalled) census=%v lib=%v", phase, calls, x.libCensus()))
 	}
